@@ -80,9 +80,13 @@ def run(ctx: core.Check):
         try:
             data = create(ctx, d, copy.deepcopy(desc), via)
         except Exception as e:
-            raise core.MachineryError(f"create refused atom {a}: {e!r}")
+            data = None
+            ctx.observe(f"create refused atom {json.dumps(a)[:120]}: {type(e).__name__}")
         if data is None:
-            raise core.MachineryError(f"CLI create refused atom {a}")
+            ctx.count("atoms_refused_by_create")   # "nothing is dropped": an atom of the language that create refuses is reported
+            tr.begin({"atom": a, "via": via, "refused": True})
+            tr.ev("Wire", desc=wiredesc.typed(desc), bytes=[], hashes=[])
+            continue
         if wire_event(ctx, tr, desc, data, {"atom": a, "via": via}):
             ctx.nontriv(json.dumps(a, sort_keys=True))
         if k == 5:
